@@ -4,7 +4,10 @@
 (* "keyed" with a non-empty sequence of keys, "counted" (the number of keys is *)
 (* part of the command's content and a further argument that is not a key      *)
 (* follows them - EVAL, ZUNIONSTORE, LMPOP ...; the argument may look exactly   *)
-(* like a key of another slot) or "opaque" (its keys cannot be determined).    *)
+(* like a key of another slot), "dynamic" (a module's command: no table of the  *)
+(* tool knows it, the target names its keys when asked - COMMAND GETKEYS - and  *)
+(* from there on it is scanned like a keyed one) or "opaque" (neither the tool  *)
+(* nor the target can tell its keys).                                           *)
 (* The admission scan visits the keys one at a time (one TLC                    *)
 (* step per key, as syncer/bisync.go buildBisyncReplayUnitWithMode does),      *)
 (* remembers the slot of the first key and refuses at the first opaque         *)
@@ -44,8 +47,12 @@ DefaultPool == { <<123,97,125,120>>,            \* {a}x
 DefaultArgPool == { <<123,98,125,120>>, <<123,97,125,121>> }   \* {b}x  {a}y
 
 KeySeqs == UNION {[1..n -> Pool] : n \in 1..MaxKeys}
+\* keys of dynamic commands: two of one tag, one of another (the brace shapes are exercised by the keyed commands)
+DynPool == { <<123,97,125,120>>, <<123,97,125,121>>, <<123,98,125,120>> } \cap Pool
+DynKeySeqs == UNION {[1..n -> DynPool] : n \in 1..MaxKeys}
 Cmds == {[kind |-> "keyed", keys |-> ks, arg |-> <<>>] : ks \in KeySeqs}
         \cup {[kind |-> "counted", keys |-> ks, arg |-> a] : ks \in KeySeqs, a \in ArgPool}
+        \cup {[kind |-> "dynamic", keys |-> ks, arg |-> <<>>] : ks \in DynKeySeqs}
         \cup {[kind |-> "opaque", keys |-> <<k>>, arg |-> <<>>] : k \in Pool}
 UnitsAll == UNION {[1..n -> Cmds] : n \in 1..MaxCmds}
 
